@@ -14,8 +14,8 @@ import (
 )
 
 type shRsaPriv struct {
-	n                          *big.Int
-	d, e, p, q, dp, dq, qi     *big.Int // nil = absent
+	n                      *big.Int
+	d, e, p, q, dp, dq, qi *big.Int // nil = absent
 }
 type shRsaPub struct{ n, e *big.Int }
 type shEcPriv struct {
@@ -47,10 +47,10 @@ type shKeyBlock struct {
 
 // object kinds: nil op te ce sd sk pu pr sp pg
 type shObj struct {
-	kind   string
-	ty     uint32 // secret data type / certificate type
-	cert   []byte
-	kb     shKeyBlock
+	kind string
+	ty   uint32 // secret data type / certificate type
+	cert []byte
+	kb   shKeyBlock
 }
 
 func bigTok(v *big.Int) string {
